@@ -67,17 +67,26 @@ def flagsIter (cat : Nat) : List Nat := iterGo cat flagDefs cat
 
 /-! ## `InputBuffer::build`: word-start permission -/
 
-/-- the `can_bow` chain of `build`, one flag per character; state = (`next_bow`, `prev_cat`) -/
-def bowGo : List Nat → Bool → Nat → List Bool
+/-- the `can_bow` chain of `build`, one flag per character; state = (`next_bow`, `prev_cat`).
+`chainBan = false`: the pinned code — a character banned by the preceding NOOOVBOW2 character resets
+the flag without looking at its own class; `chainBan = true`: the repaired code — such a character, when
+it is NOOOVBOW2 itself, bans its successor too. -/
+def bowGoV (chainBan : Bool) : List Nat → Bool → Nat → List Bool
   | [], _, _ => []
   | cat :: rest, nextBow, prev =>
-    if !nextBow then false :: bowGo rest true cat
-    else if cat &&& NOOOVBOW2 ≠ 0 then false :: bowGo rest false cat
-    else if cat &&& NOOOVBOW ≠ 0 then false :: bowGo rest true cat
-    else if cat &&& nonStarting ≠ 0 then (cat &&& prev == 0) :: bowGo rest true cat
-    else true :: bowGo rest true cat
+    if !nextBow then false :: bowGoV chainBan rest (if chainBan then cat &&& NOOOVBOW2 == 0 else true) cat
+    else if cat &&& NOOOVBOW2 ≠ 0 then false :: bowGoV chainBan rest false cat
+    else if cat &&& NOOOVBOW ≠ 0 then false :: bowGoV chainBan rest true cat
+    else if cat &&& nonStarting ≠ 0 then (cat &&& prev == 0) :: bowGoV chainBan rest true cat
+    else true :: bowGoV chainBan rest true cat
+
+/-- the pinned code -/
+def bowGo : List Nat → Bool → Nat → List Bool := bowGoV false
 
 def bowTable (cats : List Nat) : List Bool := bowGo cats true 0
+
+/-- the repaired code -/
+def bowTableFix (cats : List Nat) : List Bool := bowGoV true cats true 0
 
 def utf8Width (c : Nat) : Nat := if c < 0x80 then 1 else if c < 0x800 then 2 else if c < 0x10000 then 3 else 4
 
@@ -180,10 +189,12 @@ structure Buf where
   bow : List Bool      -- per character (value of `mod_bow` at the character's first byte)
 deriving Repr, DecidableEq
 
-def mkBuf (v : Variant) (tab : List (Nat × Nat)) (chars : List Nat) : Option Buf :=
+def mkBufV (v : Variant) (bowFix : Bool) (tab : List (Nat × Nat)) (chars : List Nat) : Option Buf :=
   match Wire.allSome (chars.map (CharCat.lookup tab)) with
   | none => none
-  | some cats => some ⟨chars, cats, fillCatContinuity v cats, bowTable cats⟩
+  | some cats => some ⟨chars, cats, fillCatContinuity v cats, if bowFix then bowTableFix cats else bowTable cats⟩
+
+def mkBuf (v : Variant) (tab : List (Nat × Nat)) (chars : List Nat) : Option Buf := mkBufV v false tab chars
 
 /-- number of leading characters that cannot start a word -/
 def nextBow : List Bool → Nat
